@@ -453,8 +453,13 @@ def apply_edit(sv, e):
     elif k == "AttachHeights":
         for i, o in enumerate(s.obs):
             if o["t"] in ("s-distance", "z-angle"):
-                o["fdh"] = 1.5 + 0.1 * (i % 3) if e["s"] >= 1 else 0.0
-                o["tdh"] = 1.3 + 0.2 * (i % 2) if e["s"] == 2 else 0.0
+                if e["s"] <= 2:
+                    o["fdh"] = 1.5 + 0.1 * (i % 3) if e["s"] >= 1 else 0.0
+                    o["tdh"] = 1.3 + 0.2 * (i % 2) if e["s"] == 2 else 0.0
+                elif e["s"] == 3:            # a reflector on a pole, instrument on a pillar: target height only, below tol-abs
+                    o["fdh"], o["tdh"] = 0.0, 0.30 + 0.05 * (i % 3)
+                else:                        # instrument height only, below tol-abs
+                    o["fdh"], o["tdh"] = 0.25 + 0.05 * (i % 2), 0.0
     return s
 
 
